@@ -339,7 +339,8 @@ def c08(ctx):
                 "fails the k-th allocation: the failure must surface as std::bad_alloc, the snapshot must be unchanged, on olc_db a single-threaded sweep under the "
                 "scheduler must terminate; the first k that completes is the retry and must return the model's result - so k covers exactly the allocations the "
                 "operation makes. Every operation is injected on trees of <= 48 entries, structural operations always, others with probability 48/n. Over-long (2^32 "
-                "byte, MAP_NORESERVE) keys and values must raise std::length_error without a trace. QSBR: qsbr_resume, qsbr_thread construction, "
+                "byte, MAP_NORESERVE) keys and values must raise std::length_error without a trace. QSBR: qsbr_resume (and after the retry that succeeds the thread must "
+                "behave normally: with a second thread registered it retires objects, pauses with the requests pending, and they must be executed), qsbr_thread construction, "
                 "on_next_epoch_deallocate (second thread parked so that the request queues; and, with a second thread that quiesces on request, after random preludes of "
                 "requests and quiescent states of both threads, so that the failing call finds requests pending in either interval and its own view of the epoch current "
                 "or one behind: state word, request-list getters, QSBR statistics getters and the set of live blocks must be unchanged). An interposed pthread_mutex monitor checks after every injected call that the "
@@ -353,7 +354,8 @@ def c08(ctx):
     ctx.floors += [("injections.qsbr_resume", 10), ("injections.qsbr_thread", 10), ("injections.on_next_epoch_deallocate", 10), ("olc_lock_sweeps", 1000), ("mutex_balance_checks", 10000),
                    ("length_error_key_cases", 5), ("length_error_value_cases", 5),
                    ("dealloc_failures.stale_epoch_view.requests_pending", 20), ("dealloc_failures.stale_epoch_view.nothing_pending", 20),
-                   ("dealloc_failures.current_epoch_view.requests_pending", 20), ("dealloc_failures.current_epoch_view.nothing_pending", 20)]
+                   ("dealloc_failures.current_epoch_view.requests_pending", 20), ("dealloc_failures.current_epoch_view.nothing_pending", 20),
+                   ("pauses_with_pending_requests_after_retried_resume", 100)]
 
 
 # ------------------------------------------------------------- E6 cfgdiff
